@@ -189,7 +189,7 @@ func (c *Ctx) errPropagatedSentinel(call ssa.CallInstruction) (bool, string) {
 			}
 			return false
 		}
-		q := PathQuery{StartBlock: nonNil, StartPred: b, Cut: isRetOfE, Goal: IsReturn, Prune: func(from, to *ssa.BasicBlock) bool {
+		q := PathQuery{StartBlock: nonNil, StartPred: b, NonNil: map[ssa.Value]bool{e: true}, Cut: isRetOfE, Goal: IsReturn, Prune: func(from, to *ssa.BasicBlock) bool {
 			f, ok := EdgeFact(from, to)
 			if !ok {
 				return false
